@@ -1,7 +1,7 @@
 (* C03 — boolean comparison of the model with observations of the implementation (used by K only). *)
 From Coq Require Import List ZArith Bool String.
 Import ListNotations.
-From AgileV Require Import C03.Model.
+From AgileV Require Import C03.Model C03.ModelCnn.
 Local Open Scope Z_scope.
 
 Fixpoint list_eqb {T} (eqb : T -> T -> bool) (a b : list T) : bool :=
@@ -18,17 +18,19 @@ Definition shapes_eqb := list_eqb pshape_eqb.
 (* what is observed after one mutation call:
    descriptor fields, last_mutation_attr, values of the returned dict,
    shapes of the module's state_dict (None = not observed at this step),
-   result of rebuilding from init_dict: None = not observed, Some None = constructor raised,
-   Some (Some l) = shapes of the rebuilt module *)
-Definition obs (D : Type) := (D * string * list Z * option (list pshape) * option (option (list pshape)))%type.
+   result of rebuilding from init_dict (rebuilt_obs) *)
+Inductive rebuilt_obs := RNone | RRaised | RSame | RShapes (l : list pshape).
+Definition obs (D : Type) := (D * string * list Z * option (list pshape) * rebuilt_obs)%type.
 
 Definition opt_shapes_ok (o : option (list pshape)) (m : list pshape) : bool :=
   match o with None => true | Some l => shapes_eqb l m end.
-Definition rebuilt_ok (o : option (option (list pshape))) (m : option (list pshape)) : bool :=
+(* RSame: the rebuilt module has exactly the observed state_dict layout of the mutated module *)
+Definition rebuilt_ok (o : rebuilt_obs) (built : list pshape) (m : option (list pshape)) : bool :=
   match o, m with
-  | None, _ => true
-  | Some None, None => true
-  | Some (Some l), Some l' => shapes_eqb l l'
+  | RNone, _ => true
+  | RRaised, None => true
+  | RSame, Some l' => shapes_eqb built l'
+  | RShapes l, Some l' => shapes_eqb l l'
   | _, _ => false
   end.
 
@@ -41,11 +43,11 @@ Fixpoint check_mlp_steps (s : mlp_static) (c : mlp_cfg) (st : mlp_state)
       let '(st', nm', rt') := mlp_mutate s c st m r1 r2 in
       zl_eqb h (mlp_hidden st') && String.eqb nm nm' && zl_eqb rt rt'
       && opt_shapes_ok sh (mlp_built st')
-      && rebuilt_ok rb (option_map mlp_built (mlp_of_ctor (mlp_ctor_of s c st')))
+      && rebuilt_ok rb (mlp_built st') (option_map mlp_built (mlp_of_ctor (mlp_ctor_of s c st')))
       && check_mlp_steps s c st' tl
   end.
-Definition check_mlp (s : mlp_static) (c : mlp_cfg) (h0 : list Z) (sh0 : list pshape) steps : bool :=
-  shapes_eqb sh0 (mlp_built (mlp_build s h0)) && check_mlp_steps s c (mlp_build s h0) steps.
+Definition check_mlp (s : mlp_static) (c : mlp_cfg) (h0 : list Z) (sh0 : option (list pshape)) steps : bool :=
+  opt_shapes_ok sh0 (mlp_built (mlp_build s h0)) && check_mlp_steps s c (mlp_build s h0) steps.
 
 (* ---- scalar blocks *)
 Section Scalar.
@@ -60,13 +62,30 @@ Fixpoint check_s_steps (c : scfg) (st : sstate) (steps : list (smeth * Z * obs (
       let '(st', nm', rt') := s_mutate p casts shapes c st m r1 in
       (fst d =? s_layers (s_arch st')) && (snd d =? s_width (s_arch st')) && String.eqb nm nm' && zl_eqb rt rt'
       && opt_shapes_ok sh (s_built st')
-      && rebuilt_ok rb (if ctor_ok st' then Some (shapes (s_arch st')) else None)
+      && rebuilt_ok rb (s_built st') (if ctor_ok st' then Some (shapes (s_arch st')) else None)
       && check_s_steps c st' tl
   end.
-Definition check_s (c : scfg) (a0 : sarch) (sh0 : list pshape) steps : bool :=
-  shapes_eqb sh0 (shapes a0) && check_s_steps c (s_build shapes a0 true) steps.
+Definition check_s (c : scfg) (a0 : sarch) (sh0 : option (list pshape)) steps : bool :=
+  opt_shapes_ok sh0 (shapes a0) && check_s_steps c (s_build shapes a0 true) steps.
 End Scalar.
 
 Definition check_lstm (s : lstm_static) := check_s lstm_params false (lstm_shapes s) (fun _ => true).
 Definition check_simba (s : simba_static) := check_s simba_params false (simba_shapes s) (fun _ => true).
 Definition check_resnet (s : resnet_static) := check_s resnet_params true (resnet_shapes s) resnet_ctor_ok.
+
+(* ---- CNN *)
+Definition cnn_desc_eqb (d : list Z * list Z * list Z) (a : cnn_arch) : bool :=
+  let '(ch, ks, ss) := d in zl_eqb ch (channels a) && zl_eqb ks (kernels a) && zl_eqb ss (strides a).
+Fixpoint check_cnn_steps (st : cnn_static) (c : cnn_cfg) (s : cnn_state)
+         (steps : list (cnn_meth * Z * Z * obs (list Z * list Z * list Z))) : bool :=
+  match steps with
+  | [] => true
+  | (m, r1, r2, (d, nm, rt, sh, rb)) :: tl =>
+      let '(s', nm', rt') := cnn_mutate st c s m r1 r2 in
+      cnn_desc_eqb d (cnn_arch_of s') && String.eqb nm nm' && zl_eqb rt rt'
+      && opt_shapes_ok sh (cnn_built s')
+      && rebuilt_ok rb (cnn_built s') (option_map cnn_built (cnn_of_ctor st c (cnn_arch_of s')))
+      && check_cnn_steps st c s' tl
+  end.
+Definition check_cnn (st : cnn_static) (c : cnn_cfg) (a0 : cnn_arch) (sh0 : option (list pshape)) steps : bool :=
+  opt_shapes_ok sh0 (cnn_shapes st a0) && check_cnn_steps st c (cnn_build st a0) steps.
